@@ -38,6 +38,7 @@
 import BVM.Proofs.Read
 import BVM.Proofs.Oib
 import BVM.Proofs.RoundTrip
+import BVM.Proofs.RoundTripPre
 namespace BVM
 
 theorem scalar_roundtrip (bo : ByteOrder) (vt : CInt) (buf : Buf) (base start len : Nat) (v : Int)
@@ -134,6 +135,19 @@ theorem record_roundtrip (env : SerEnv) (pfx : String) (args : Args) (S : Struct
     s.at_ ≤ (serRoot env pfx (buildRoot specNone S) args s).at_ :=
   struct_roundtrip env pfx args S s L F hS hms hsc hlen hat h
 
+/-- the same under one **executable** precondition (`rootPreb`, Model/Decode.lean: alignments powers of two, sizes
+    1–64, C strings, sequence lengths found and equal to the counts written, no 2^32 wrap, fast path only on a
+    little-endian host).  The driver evaluates `rootPreb` on the records the harness traces with the real tracer
+    (op `rtpre`), so the theorem is known to be about those records. -/
+theorem record_roundtrip_exec (env : SerEnv) (pfx : String) (args : Args) (S : Struct) (s : SerSt)
+    (hpre : rootPreb env s.buf.length pfx args S s.at_ = true)
+    (h : (serRoot env pfx (buildRoot specNone S) args s).oob = false) :
+    readStruct env.bo (serRoot env pfx (buildRoot specNone S) args s).buf (8 * s.buf.length) (tsdlStruct S) s.at_ =
+      some (S.members.map (fun m => (m.name, decMember pfx args m)), (serRoot env pfx (buildRoot specNone S) args s).at_) ∧
+    PrefixEq env.bo s.at_ s.buf (serRoot env pfx (buildRoot specNone S) args s).buf ∧
+    s.at_ ≤ (serRoot env pfx (buildRoot specNone S) args s).at_ :=
+  struct_roundtrip_exec env pfx args S s hpre h
+
 /-- the side conditions on a member follow from the well-formedness the front end guarantees -/
 theorem member_side_conditions (S : Struct) (hS : ∃ j, S.align = 2 ^ j) (pfx : String) (args : Args) (m : Member)
     (hm : m ∈ S.members) (hnu : m.ft ≠ .uuid) (hwf : m.ft.leaf.WF) (hl : ∀ l ∈ args.get (pfx ++ "_" ++ m.name), LeafOK l) :
@@ -173,6 +187,7 @@ def c01Args : Args := [("p_n", [.num 2]), ("p_a", [.num 5, .num 33]), ("p_t", [.
                        ("p_s", [.str [104, 105]])]
 def c01St : SerSt := ⟨List.replicate 16 255, 3, [], [], false, []⟩
 
+example : rootPreb c01Env c01St.buf.length "p" c01Args c01R c01St.at_ = true := by decide +kernel
 example : Frame c01Env 16 c01R.align := ⟨by simp [c01Env], by decide, by decide⟩
 example : (serRoot c01Env "p" (buildRoot specNone c01R) c01Args c01St).oob = false := by decide +kernel
 example : LenScopeOK "p" c01Args c01R.members [] := lenScopeOKb_sound _ _ _ _ (by decide +kernel)
@@ -206,5 +221,6 @@ example : readStruct .be (serRoot c01Env "p" (buildRoot specNone c01R) c01Args c
 #print axioms lengths_outermost_first
 #print axioms static_start_bits_are_dynamic
 #print axioms record_roundtrip
+#print axioms record_roundtrip_exec
 #print axioms member_side_conditions
 end BVM
